@@ -238,7 +238,7 @@ pub fn run(tier: &str, seed: u64) -> i32 {
             if !rule.well_formed() {
                 return vec![];
             }
-            vec![make_case(rule, gen::same_field_docs("f1"))]
+            vec![make_case(rule, gen::same_field_docs_for(rule, "f1"))]
         },
         judge,
         |_, rep| rep.label("same_field_rule"),
@@ -253,6 +253,53 @@ pub fn run(tier: &str, seed: u64) -> i32 {
         judge,
         |_, rep| rep.label("wide_or_group_rule"),
     );
+    // case twins (equal needles, one flag each) in both orders under several connective shapes
+    {
+        let twins = gen::twin_rules();
+        let subs: Vec<Report> = par_run(|w, n| {
+            let mut sub = report.sub();
+            for (i, (a, b, docs)) in twins.iter().enumerate() {
+                if i % n != w {
+                    continue;
+                }
+                for text in [a, b] {
+                    let mut c = Case::new("c01.diff");
+                    c.rules = vec![text.clone()];
+                    c.docs = docs.clone();
+                    let out = judge(&c);
+                    sub.label("case_twin_rule");
+                    sub.record(&c, out);
+                }
+            }
+            sub
+        });
+        for s in subs {
+            report.merge(s);
+        }
+    }
+    // regexes that compile on their own but not as one set (the optimiser has to leave them apart,
+    // with their case flags), against values that match only through case folding
+    for (body, cond) in [
+        ("  A:\n  - f1: 'i?a\\w{100}'\n  - f1: 'i?b\\w{100}'\n  - f1: 'i?c\\w{100}'\n", "A"),
+        ("  A:\n    f1: 'i?a\\w{100}'\n  B:\n    f1: 'i?b\\w{100}'\n  C:\n    f1: 'i?c\\w{100}'\n", "A or B or C"),
+        ("  A:\n  - f1: '?a\\w{100}'\n  - f1: 'i?b\\w{100}'\n  - f1: '?c\\w{100}'\n  - f1: 'i?d\\w{100}'\n  - f1: 'i?e\\w{100}'\n", "A"),
+        ("  A:\n  - str(f1): 'i?a\\w{100}'\n  - str(f1): 'i?b\\w{100}'\n  - str(f1): 'i?c\\w{100}'\n", "not A"),
+    ] {
+        let mut c = Case::new("c01.diff");
+        c.rules = vec![format!("detection:\n{body}  condition: {cond}\ntrue_positives: []\ntrue_negatives: []\n")];
+        c.docs = ["A", "B", "a", "C", "e", "E", "z"]
+            .iter()
+            .flat_map(|h| {
+                [
+                    crate::model::DObj(vec![("f1".to_string(), crate::model::DocVal::Str(format!("{h}{}", "x".repeat(100))))]),
+                    crate::model::DObj(vec![("f1".to_string(), crate::model::DocVal::Str(format!("{h}{}", "X".repeat(100))))]),
+                ]
+            })
+            .collect();
+        let out = judge(&c);
+        report.label("regexes_beyond_the_set_size_limit");
+        report.record(&c, out);
+    }
     report.finish()
 }
 
